@@ -708,7 +708,54 @@ MixProg(insts, callees) ==
    print against the template rendering of `prog`, exactly like a program built in one go.
    Exhaustive to MaxSteps edits (each preceded by a print), or -simulate. *)
 HX == RParam(1)
+\* base 3: TYPE-LEVEL histories.  The types of the library are mutable objects too: a struct type is
+\* created without a name (types.NewStruct), values whose types point to it are built, compared by the
+\* constructors' own type checks (NewStore, NewLoad) and printed, and only THEN the struct is given a
+\* name (Module.NewTypeDef / SetName on the one shared object) -- the edit "nametype".  From then on the
+\* struct IS the identified type: every type built over it (the global's pointer type, the alloca'd
+\* pointer, operand types) denotes %name, in the next print and in the next constructor check.
+\* HistBaseT(PT) is the base over the struct type PT; base 3 starts with the literal struct.
+LateStruct == PairTy
+LateName == "pair"
+HistBaseT(PT) ==
+  LET P == TyPtr(PT)  PP == TyPtr(TyPtr(PT))
+      origin == RConst(CGRef("origin", P)) IN
+  Fn("f", I32, <<[name |-> "x", ty |-> I32], [name |-> "p", ty |-> P]>>, FALSE,
+     <<Blk("", <<[Simple("alloca", "i32", <<0>>, <<>>, "slot", <<>>) EXCEPT !.ty = P, !.res = PP],
+                 [Simple("store", "i32", <<1, 1>>, <<>>, "", <<origin, RInst(1, 1)>>) EXCEPT !.ops[1].ty = P, !.ops[2].ty = PP],
+                 [Simple("load", "i32", <<1>>, <<>>, "l", <<RInst(1, 1)>>) EXCEPT !.ty = P, !.res = P, !.ops[1].ty = PP],
+                 [Simple("store", "i32", <<1, 1>>, <<>>, "", <<RParam(2), RInst(1, 1)>>) EXCEPT !.ops[1].ty = P, !.ops[2].ty = PP],
+                 Simple("add", "i32", <<1, 1>>, <<>>, "", <<HX, HX>>)>>,
+           RetVal(I32, RInst(1, 5)))>>)
+HistDeclsT(PT) == BaseDecls \o <<DefGlobal("origin", PT, CSimple("zero", PT))>>
+HistDecls0(bn) == IF bn = 3 THEN HistDeclsT(LateStruct) ELSE BaseDecls
+\* the type term t with every occurrence of the struct `from` replaced by `to`
+RECURSIVE SubTy(_, _, _)
+SubTy(t, from, to) ==
+  IF t = from THEN to ELSE
+  CASE t.k \in {"ptr", "vec", "arr"} -> [t EXCEPT !.e = SubTy(@, from, to)]
+    [] t.k = "struct" -> [t EXCEPT !.fs = [i \in 1..Len(@) |-> SubTy(@[i], from, to)]]
+    [] t.k = "func"   -> [t EXCEPT !.ret = SubTy(@, from, to), !.ps = [i \in 1..Len(@) |-> SubTy(@[i], from, to)]]
+    [] OTHER -> t
+SubOp(o, from, to) ==
+  [o EXCEPT !.ty = SubTy(@, from, to),
+            !.v = IF @.r = "const" /\ @.c.c \in {"gref", "null", "undef", "zero", "int"}
+                  THEN RConst([@.c EXCEPT !.ty = SubTy(@, from, to)]) ELSE @]
+SubInst(I, from, to) ==
+  [I EXCEPT !.ty = SubTy(@, from, to), !.res = SubTy(@, from, to), !.ops = [j \in 1..Len(@) |-> SubOp(@[j], from, to)]]
+SubFn(fn, from, to) ==
+  [fn EXCEPT !.ret = SubTy(@, from, to),
+             !.params = [i \in 1..Len(@) |-> [@[i] EXCEPT !.ty = SubTy(@, from, to)]],
+             !.blocks = [b \in 1..Len(@) |-> [@[b] EXCEPT !.insts = [i \in 1..Len(@) |-> SubInst(@[i], from, to)],
+                                                          !.term = SubInst(@, from, to)]]]
+SubDecls(ds, from, to) ==
+  [i \in 1..Len(ds) |-> IF ds[i].op = "NewGlobalDef"
+                        THEN [ds[i] EXCEPT !.ty = SubTy(@, from, to), !.init = [@ EXCEPT !.ty = SubTy(@, from, to)]]
+                        ELSE ds[i]]
+\* the struct is still unnamed in fn (the parameter p points to the literal struct)
+LateUnnamed(fn) == \E i \in 1..Len(fn.params) : fn.params[i].ty = TyPtr(LateStruct)
 HistBase(bn) ==
+  IF bn = 3 THEN HistBaseT(LateStruct) ELSE
   LET u(s) == IF bn = 1 THEN "" ELSE s         \* base 1: mostly unnamed values; base 2: mostly named
       n(s) == IF bn = 1 THEN s ELSE ""
       bin(kd, nm, a, b) == Simple(kd, "i32", <<1, 1>>, <<>>, nm, <<a, b>>)
@@ -721,7 +768,7 @@ HistBase(bn) ==
                 bin("xor", u("e"), RInst(1, 4), HX)>>,
               Br(2)),
           Blk(u("tail"), <<bin("shl", u("s"), RInst(1, 5), RConst(CInt(I32, 1)))>>, RetVal(I32, RInst(2, 1)))>>)
-HistBases == {1, 2}
+HistBases == {1, 2, 3}
 Observers == {"String", "FuncLLString", "AssignIDs"}
 
 AllInsts(fn) == UNION {{<<b, i>> : i \in 1..Len(fn.blocks[b].insts)} : b \in 1..Len(fn.blocks)}
@@ -765,6 +812,16 @@ HistEdits(fn) ==
      \cup {HEdit("setterm", Len(fn.blocks), 0, "", RetVal(I32, HX))}
      \* a block added (unreachable, which is valid LLVM)
      \cup {HEdit("newblock", 0, 0, nm, NoInst) : nm \in {"", "nb"}}
+     \* the (so far literal) struct type given a name: Module.NewTypeDef on the shared type object
+     \cup (IF LateUnnamed(fn) THEN {HEdit("nametype", 0, 0, LateName, NoInst) @@ [ty |-> LateStruct]} ELSE {})
+     \* after the naming: a load of the slot through a pointer type built NOW (the constructor's own type
+     \* check compares the type of an old value with a new type over the named struct)
+     \cup (IF \E i \in 1..Len(fn.params) : fn.params[i].ty = TyPtr(TyNamed(LateName, LateStruct))
+          THEN LET NT == TyNamed(LateName, LateStruct)  P == TyPtr(NT)  PP == TyPtr(P)
+                   ai == CHOOSE i \in 1..Len(fn.blocks[1].insts) : fn.blocks[1].insts[i].kind = "alloca" IN
+               {HEdit("insert", 1, Len(fn.blocks[1].insts) + 1, "",
+                      [Simple("load", "i32", <<1>>, <<>>, "l2", <<RInst(1, ai)>>) EXCEPT !.ty = P, !.res = P, !.ops[1].ty = PP])}
+          ELSE {})
 
 Apply(fn, e) ==
   CASE e.op = "replace" -> [fn EXCEPT !.blocks[e.b].insts[e.i] = e.inst]
@@ -785,19 +842,25 @@ Apply(fn, e) ==
          IN [g EXCEPT !.blocks[e.b].insts = SeqInsert(@, e.i, e.inst)]
     [] e.op = "setterm" -> [fn EXCEPT !.blocks[e.b].term = e.inst]
     [] e.op = "newblock" -> [fn EXCEPT !.blocks = Append(@, Blk(e.name, <<>>, Unreachable))]
+    [] e.op = "nametype" -> SubFn(fn, e.ty, TyNamed(e.name, e.ty))
 
 HTag(e) == IF e.op = "print" THEN "print:" \o e.name
            ELSE e.op \o "(" \o ToString(e.b) \o "," \o ToString(e.i) \o "," \o e.name
                 \o (IF e.op \in {"replace", "insert"} THEN "," \o e.inst.kind \o "," \o e.inst.name ELSE "") \o ")"
 RECURSIVE HTags(_, _)
 HTags(steps, j) == IF j > Len(steps) THEN "" ELSE "/" \o HTag(steps[j]) \o HTags(steps, j + 1)
-HistProg(bn, fn, steps) == Prog("hist:base" \o ToString(bn) \o HTags(steps, 1), "hist", BaseDecls, fn)
+\* the module-level declarations follow the naming: the global of the struct type is of the named type
+\* once the struct has been named
+HistDeclsNow(bn, steps) ==
+  IF bn = 3 /\ \E j \in 1..Len(steps) : steps[j].op = "nametype"
+  THEN SubDecls(HistDecls0(bn), LateStruct, TyNamed(LateName, LateStruct)) ELSE HistDecls0(bn)
+HistProg(bn, fn, steps) == Prog("hist:base" \o ToString(bn) \o HTags(steps, 1), "hist", HistDeclsNow(bn, steps), fn)
 NEdits(steps) == Cardinality({j \in 1..Len(steps) : steps[j].op # "print"})
 
 \* --- Init / Next ------------------------------------------------------------
 AllModuleProgs == ModuleProgs \o SetToSeq({UnnamedProg(o) : o \in UOrders})
 NCover == Len(CoverKinds) + Len(ConstForms) + Len(AllModuleProgs)
-NoHist == [base |-> 0, init |-> NoFn, steps |-> <<>>]
+NoHist == [base |-> 0, init |-> NoFn, steps |-> <<>>, decls |-> <<>>]
 Init == /\ stage = "init" /\ k = 0 /\ env = <<>> /\ hist = NoHist
         /\ prog = Prog("empty", Mode, <<>>, NoFn)
 
@@ -811,7 +874,7 @@ CoverNext ==
      /\ prog' = AllModuleProgs[k - Len(CoverKinds) - Len(ConstForms)] /\ stage' = "case" /\ UNCHANGED <<k, env>>
 HistNext ==
   \/ /\ stage = "init" /\ \E bn \in HistBases :
-          /\ hist' = [base |-> bn, init |-> HistBase(bn), steps |-> <<>>]
+          /\ hist' = [base |-> bn, init |-> HistBase(bn), steps |-> <<>>, decls |-> HistDecls0(bn)]
           /\ prog' = HistProg(bn, HistBase(bn), <<>>)
        /\ stage' = "built" /\ UNCHANGED <<k, env>>
   \* an edit is preceded by a print (the first one by every kind of observer); -simulate draws one of each
